@@ -362,3 +362,27 @@ Proof.
   cbn zeta. repeat (apply conj); try reflexivity; try discriminate.
   repeat constructor.
 Qed.
+
+(* a concurrent round: two goroutines ask the same deep path while a third asks its parent.  With
+   every goroutine seeing the longest-prefix value P_b holds and the callers agree; if one goroutine
+   also saw the top-level value once (a garbled key missed: what a key built in a shared buffer
+   does), P_b fails. *)
+Example C19_concurrent_example :
+  let c := [ (["beacon-node-addresses"], RList ["top:5052"]);
+             (["m1"; "beacon-node-addresses"], RList ["shallow:5052"]);
+             (["m1"; "first"; "second"; "beacon-node-addresses"], RList ["full:5052"]) ] in
+  let deep := QAddr "m1.first.second.third" (Some ["full:5052"]) in
+  let mid := QAddr "m1.first" (Some ["shallow:5052"]) in
+  let good := {| c_id := 0; c_cfg := c; c_deflevel := 0%Z; c_queries := [deep];
+                 c_parallel := [[deep; mid]; [deep]; [mid]; [deep; mid]]; c_later := [] |} in
+  let bad := {| c_id := 1; c_cfg := c; c_deflevel := 0%Z; c_queries := [deep];
+                c_parallel := [[deep; mid; QAddr "m1.first.second.third" (Some ["top:5052"])]; [deep]; [mid];
+                               [deep; mid]];
+                c_later := [] |} in
+  P_b good = true /\ agree good = true /\ len (calls_on_installed good) = 7%nat /\
+  P_b bad = false /\ agree bad = false /\
+  ~ same_answer deep (QAddr "m1.first.second.third" (Some ["top:5052"])).
+Proof.
+  cbn zeta. repeat split; try (vm_compute; reflexivity).
+  cbn [same_answer slice_items]. intros H. specialize (H eq_refl). discriminate H.
+Qed.
